@@ -256,6 +256,10 @@ def _exc_failure(exc, what):
     kind, sig = plrun.classify_exception(exc)
     if kind == "resource":
         return None, sig
+    if kind == "error" and sig == "OccursCheck":
+        # a unification that binds a variable to a term containing it: standard Prolog builds a cyclic term there,
+        # ProbLog raises (C14 admits both); the program is outside the statement of C13
+        return None, "occurs-check"
     if kind == "error":
         return Failure("unexpected-error", "%s: ProbLog raised %s: %s" % (what, sig, str(exc)[:300]),
                        sig="unexpected-error:%s" % sig), None
